@@ -245,7 +245,7 @@ type CustomType struct {
 	TypeName string
 }
 
-func NewCustomType(specCustom string, st InternalSchemaType) (CustomType, Imports) {
+func NewCustomType(specCustom string, st InternalSchemaType) (CustomType, Imports, error) {
 	var customImport string
 	customType := specCustom
 	var customPkg string
@@ -262,6 +262,10 @@ func NewCustomType(specCustom string, st InternalSchemaType) (CustomType, Import
 	}
 
 	dotIdx := strings.LastIndex(specCustom, ".")
+	if slIdx >= 0 && dotIdx < slIdx {
+		// gopkg.in/Type: an import path without a "package.Type" tail
+		return CustomType{}, nil, fmt.Errorf("custom go type %q: expected [import/path/]package.Type", specCustom)
+	}
 	if dotIdx >= 0 {
 		// github.com/username/name.MyType
 		//                         ^
@@ -287,7 +291,7 @@ func NewCustomType(specCustom string, st InternalSchemaType) (CustomType, Import
 
 		Pkg:      customPkg,
 		TypeName: typeName,
-	}, NewImportsS(customImport)
+	}, NewImportsS(customImport), nil
 }
 
 var _ InternalSchemaType = (*CustomType)(nil)
